@@ -20,7 +20,7 @@ ID = "C08"
 MANIFEST = {
     "category": "exploration",
     "text": "Generated-input search: Boolean expressions over up to 6 format-constraint keys (n-ary U/O/X, nesting, every operator spelling, whitespace, redundant brackets) x all 2^n truth assignments, through evaluate_format_constraint_tree, format_constraint_evaluation with DictBasedFcEvaluator with a plain FcEvaluator subclass (sync and async evaluate_ methods returning (False, None)) and with one whose coroutines really suspend and complete in reverse order. The result must equal the Boolean value of the AST and carry an error message iff it is unfulfilled; None and '' must give (True, None). The Boolean clause is additionally checked on two routes (tree evaluator with hand-made nodes, dict based evaluator) where a subset of the unfulfilled constraints carries no error message at all. Stage many-tokens (enumerated): 11-40 (thorough: 9-98) different constraints in one expression, ONE injected evaluator whose coroutine methods suspend, asked four times under different truth assignments, each time on a new event loop. The keys include 932 and 935, for which FcEvaluator ships methods of its own (hard-coded results must win).",
-    "note": "Trusted: ref.bool_eval and the generator. Precondition of the statement is built into the generator: unfulfilled single constraints carry a message (or get the default one), fulfilled ones carry none. Bounded: <= 12/24 atoms, <= 6 keys. Process configuration by shard (vlib/sut.py; recorded in replay files): plain / parse caches preheated beyond their size / warnings attributed to ahbicht raised as errors / logging fully enabled with every record rendered; one event loop per process or a new one per call; five process time zones; the hash seed is the shard number; namesakes of ahbicht's marshmallow schema classes are registered.",
+    "note": "Trusted: ref.bool_eval and the generator. Precondition of the statement is built into the generator: unfulfilled single constraints carry a message (or get the default one), fulfilled ones carry none. Bounded: <= 12/24 atoms, <= 6 keys. Process configuration by shard (vlib/sut.py; recorded in replay files): plain / parse caches preheated beyond their size / warnings attributed to ahbicht raised as errors / logging fully enabled with every record rendered; one event loop per process or a new one per call; five process time zones; the hash seed is the shard number; namesakes of ahbicht's marshmallow schema classes are registered. Every registry of evaluators / providers / resolvers that the harness builds (sut.configure) also holds one of each kind that names no EDIFACT format and no format version; these must never be asked.",
     "technique": "property-based testing against a Boolean reference evaluator, exhaustive over truth assignments per expression",
 }
 LEVEL = "exploration"
